@@ -18,6 +18,7 @@ import (
 	sdkmath "cosmossdk.io/math"
 	sdk "github.com/cosmos/cosmos-sdk/types"
 	"github.com/cosmos/cosmos-sdk/x/authz"
+	sdkvesting "github.com/cosmos/cosmos-sdk/x/auth/vesting/types"
 	stakingtypes "github.com/cosmos/cosmos-sdk/x/staking/types"
 	transfertypes "github.com/cosmos/ibc-go/v7/modules/apps/transfer/types"
 	"github.com/ethereum/go-ethereum/common"
@@ -25,6 +26,7 @@ import (
 
 	coinomicstypes "github.com/haqq-network/haqq/x/coinomics/types"
 	evmtypes "github.com/haqq-network/haqq/x/evm/types"
+	vtypes "github.com/haqq-network/haqq/x/vesting/types"
 
 	"verif/harness/calltree"
 	"verif/harness/engine"
@@ -455,6 +457,11 @@ func FailingLeafWorker(f *Fixture, res *engine.Result, shard, n int) {
 				RevisionHeight uint64
 			}{3, 100000}, uint64(0), "")},
 	}
+	// the signer as a clawback vesting account (a third party granted it 1 ISLM that vests in 1000 s):
+	// a delegation of one base unit more than its free coins is refused by the staking wrapper
+	vestedSigner := &calltree.Leaf{Name: "staking.delegate(vesting-signer,free+1)", To: precomp.StakingAddr,
+		Data: precomp.MustPack(st, "delegate", s, v1, bal.AddRaw(1).BigInt())}
+	leaves = append(leaves, vestedSigner)
 	idx := 0
 	for _, l := range leaves {
 		for _, nested := range []bool{false, true} {
@@ -471,6 +478,13 @@ func FailingLeafWorker(f *Fixture, res *engine.Result, shard, n int) {
 			holder.Items = []calltree.Item{{Leaf: l}}
 			sc := Scenario{Root: root, Leaf: l, LeafIn: holder.ID}
 			restore := w.Branch()
+			if l == vestedSigner {
+				g := vtypes.NewMsgConvertIntoVestingAccount(w.Addrs[f.T], S, w.Header.Time, nil,
+					sdkvesting.Periods{{Length: 1000, Amount: sdk.NewCoins(sdk.NewCoin(world.Denom, e17(10)))}}, false, false, nil)
+				if _, err := w.RunMsg(w.Ctx(), g); err != nil {
+					panic(err)
+				}
+			}
 			// limited grants of every staking type and a limited transfer allocation for the caller
 			exp := w.Header.Time.Add(1000 * time.Hour)
 			grantee := sdk.AccAddress(holder.Addr().Bytes())
@@ -498,8 +512,11 @@ func FailingLeafWorker(f *Fixture, res *engine.Result, shard, n int) {
 			flagKey := fmt.Sprintf("%x", append(evmtypes.AddressStoragePrefix(holder.Addr()), common.BigToHash(big.NewInt(calltree.SlotFlag)).Bytes()...))
 			if a.Code != 0 || a.Stores["evm"][flagKey] != "" {
 				// the call did not fail (or the transaction did): not a member of this family
+				// the call was built so that the module must refuse it
 				res.Outcomes["failing-leaf:not-failing"]++
-				res.HarnessErr = "failing-leaf family: the call " + l.Name + " did not fail as constructed"
+				res.AddViolation(engine.Violation{Signature: fmt.Sprintf("C05|leaf=%s|revertpos=failed-call|leak=not-refused", leafFamily(l)),
+					What: "a precompile call the module must refuse (more than delegated / no such entry / no such delegation / more than the balance / unvested coins) went through", Path: p,
+					Detail: map[string]any{"call": l.Name, "tx_code": a.Code}})
 				continue
 			}
 			res.Outcomes["failing-leaf:failed-and-caught"]++
